@@ -79,6 +79,7 @@ package utils
 // constructors of the hashing readers allocate and return; they touch nothing the caller can see
 //@ func NewHashReader
 //@   frame none
+//@   ensures {C06} [the-reader-made-wraps-what-it-was-given] ret1 == nil ==> ret0 != nil && ret0.r == r && ret0.sum == expectedSum && ret0.hashType == ht
 //@ func NewCompositeChecksumReader
 //@   frame none
 
